@@ -1,22 +1,395 @@
-use actix_server::verif::{Act, LKind, Sim, SimCfg};
+//! Stepped conformance driver for actix-server (C01-C08): interprets schedules (environment actions,
+//! some anchored at yield points inside an accept-loop iteration) on the engine in
+//! `actix_server::verif` and records one ground-truth observation per step as ndjson.
+//!
+//! `vsrv replay --schedules F --trace T`
+//! Schedule (one JSON object per line):
+//!   {"cfg": {"W":2,"Limit":1,"listeners":["tcp","uds"],"shutdown_ms":2000}, "steps":[ STEP, ... ]}
+//! STEP: {"do":"Connect","l":0} {"do":"WorkerPoll","i":0} {"do":"Finish","c":0} {"do":"Kill","i":0}
+//!       {"do":"Replace","i":0} {"do":"Cmd","x":"Pause|Resume|Stop"} {"do":"Inject","l":0,"kind":"fatal|conn|<errno>"}
+//!       {"do":"Advance","ms":510} {"do":"WakeAvailable","i":0} {"do":"StopWorker","i":0,"graceful":true}
+//!       {"do":"SetReady","i":0,"t":0,"script":[0,1,2]} {"do":"SetCreate","i":0,"t":0,"script":[0,1]}
+//!       {"do":"Iter","anchored":[{"at":"sent","nth":1,"step":STEP}, ...]}   one real accept-loop iteration
+//!       {"do":"Settle"}     iterate until nothing changes; the record is marked quiescent ("q":true)
+//!       {"do":"PollWoken"}  poll every worker whose waker fired (timers, stop messages)
+
+use actix_server::verif::{Act, LKind, Sim, SimCfg, Snap, SvcEvent};
+use vcore::{arg, geti, gets, json, read_ndjson, Trace, Value};
+
+fn parse_act(s: &Value) -> Option<Act> {
+    let d = gets(s, "do");
+    Some(match d {
+        "Connect" => Act::Connect(geti(s, "l") as usize),
+        "WorkerPoll" => Act::WorkerPoll(geti(s, "i") as usize),
+        "Finish" | "TearDown" => Act::Finish(geti(s, "c") as usize),
+        "Kill" => Act::Kill(geti(s, "i") as usize),
+        "Replace" => Act::Replace(geti(s, "i") as usize),
+        "Cmd" => match gets(s, "x") {
+            "Pause" => Act::Pause,
+            "Resume" => Act::Resume,
+            "Stop" => Act::Stop,
+            other => panic!("bad cmd {other}"),
+        },
+        "WakeAvailable" => Act::WakeAvailable(geti(s, "i") as usize),
+        "Inject" => {
+            let errno = match s.get("kind").and_then(|k| k.as_str()) {
+                Some("fatal") => 24,  // EMFILE
+                Some("conn") => 103,  // ECONNABORTED
+                Some("enfile") => 23, // ENFILE
+                Some("reset") => 104, // ECONNRESET
+                Some("refused") => 111,
+                _ => geti(s, "errno") as i32,
+            };
+            Act::Inject(geti(s, "l") as usize, errno)
+        }
+        "Advance" | "Tick" => Act::Advance(s.get("ms").and_then(|m| m.as_u64()).unwrap_or(510)),
+        "StopWorker" => Act::StopWorker(
+            geti(s, "i") as usize,
+            s.get("graceful").and_then(|g| g.as_bool()).unwrap_or(true),
+        ),
+        "DropStopHandle" => Act::DropStopHandle(geti(s, "i") as usize),
+        "SetReady" => Act::SetReady(
+            geti(s, "i") as usize,
+            geti(s, "t") as usize,
+            s["script"].as_array().unwrap().iter().map(|x| x.as_u64().unwrap() as u8).collect(),
+        ),
+        "SetCreate" => Act::SetCreate(
+            geti(s, "i") as usize,
+            geti(s, "t") as usize,
+            s["script"].as_array().unwrap().iter().map(|x| x.as_u64().unwrap() as u8).collect(),
+        ),
+        _ => return None,
+    })
+}
+
+/// what `Settle` compares to decide that the accept thread has nothing left to do
+fn signature(s: &Snap) -> String {
+    format!(
+        "{:?}|{:?}|{:?}|{}|{}|{}|{:?}|{:?}|{:?}|{}|{}",
+        s.accepted.len(),
+        s.dispatched.len(),
+        s.wq,
+        s.next,
+        s.paused,
+        s.timeout_ms,
+        s.avail,
+        s.handles,
+        s.sock_backoff,
+        s.exited,
+        s.panicked
+    )
+}
+
+struct Run {
+    sim: Sim,
+    w: usize,
+    /// per dispatch (in order): [cid+1, worker, clean(bool)] where clean = after the increment every
+    /// handle in the rotation was marked available and below the limit, and no fault/rejoin followed
+    dlog: Vec<(usize, usize, bool)>,
+    ever_faulted: bool,
+    pending_faults: Vec<usize>,
+    injected: Vec<usize>, // outstanding injected errors per listener
+    killed: Vec<bool>,
+    limit: usize,
+    nlisteners: usize,
+}
+
+fn one_based(v: &[usize]) -> Vec<usize> {
+    v.iter().map(|c| c + 1).collect()
+}
+
+impl Run {
+    /// projects a snapshot onto the specification's variables (connection ids 1-based)
+    fn project(&mut self, s: &Snap) -> Value {
+        let w = self.w;
+        let ncl = s.listener.len();
+        let called: Vec<usize> = s.calls.iter().filter(|c| c.0 >= 0).map(|c| c.0 as usize).collect();
+        // backlog per listener: connected, not yet accepted, in connect order
+        let mut backlog = vec![vec![]; self.nlisteners];
+        for cid in 0..ncl {
+            if s.connected[cid] && !s.accepted.contains(&cid) {
+                backlog[s.listener[cid]].push(cid + 1);
+            }
+        }
+        // queued at worker i: dispatched to the current generation of i and not yet called
+        let mut chan = vec![vec![]; w];
+        let mut dropped_queued: Vec<usize> = vec![];
+        for (cid, wi) in s.dispatched.iter() {
+            if !called.contains(cid) {
+                if s.alive[*wi] && !self.killed_after_dispatch(*cid, *wi, s) {
+                    chan[*wi].push(cid + 1);
+                } else {
+                    dropped_queued.push(*cid);
+                }
+            }
+        }
+        // measured channel lengths must agree with the reconstruction; if not, report both
+        let chan_len: Vec<i64> = s.chan.clone();
+        let mut inprog = vec![vec![]; w];
+        let mut old_inprog = vec![vec![]; w];
+        for (wi, v) in s.inprog.iter().enumerate() {
+            for cid in v {
+                // generation of the call
+                let gen = s.calls.iter().find(|c| c.0 == *cid as i64).map(|c| c.4).unwrap_or(0);
+                if gen == s.wgen[wi] && s.alive[wi] {
+                    inprog[wi].push(cid + 1);
+                } else {
+                    old_inprog[wi].push(cid + 1);
+                }
+            }
+        }
+        let closed: Vec<usize> = (0..ncl).filter(|c| s.closed[*c]).map(|c| c + 1).collect();
+        let served: Vec<Value> = s
+            .calls
+            .iter()
+            .map(|c| json!([c.0 + 1, c.1, c.2 + 1]))
+            .collect();
+        let wq: Vec<Value> = s
+            .wq
+            .iter()
+            .map(|n| {
+                if let Some(r) = n.strip_prefix("WA") {
+                    json!(["WA", r.parse::<usize>().unwrap()])
+                } else if let Some(r) = n.strip_prefix("WK") {
+                    json!(["WK", r.parse::<usize>().unwrap()])
+                } else {
+                    json!([n, 0])
+                }
+            })
+            .collect();
+        let spin = s.panicked.starts_with("verif-spin");
+        json!({
+            "backlog": backlog, "chan": chan, "chanLen": chan_len, "inprog": inprog, "oldInprog": old_inprog,
+            "counter": s.counter, "avail": s.avail, "handles": s.handles, "next": s.next,
+            "paused": s.paused, "running": !s.exited && s.panicked.is_empty(),
+            "wq": wq, "alive": s.alive,
+            "lstTimer": s.sock_backoff.iter().map(|b| if *b { 2 } else { 0 }).collect::<Vec<_>>(),
+            "timeoutSet": s.timeout_ms >= 0,
+            "pathOk": s.uds_path,
+            "errq": self.injected,
+            "connRefused": (0..ncl).any(|c| !s.connected[c]),
+            "panicked": !s.panicked.is_empty() && !spin, "spin": spin, "panicMsg": s.panicked,
+            "served": served, "closed": closed,
+            "listener": s.listener.iter().map(|l| l + 1).collect::<Vec<_>>(),
+            "connected": s.connected,
+            "dlog": self.dlog.iter().map(|d| json!([d.0, d.1, d.2])).collect::<Vec<_>>(),
+            "faults": s.faults, "everFaulted": self.ever_faulted,
+            "cmdq": self.pending_faults,
+            "accepted": one_based(&s.accepted),
+            "finished": one_based(&s.finished),
+            "wstate": s.wstate, "now": s.now_ms,
+            "stopReply": s.stop_reply, "stopReplyAt": s.stop_reply_at,
+        })
+    }
+
+    /// a connection dispatched to generation g of worker wi is lost if that generation died before it
+    /// was called; since a replacement gets a fresh queue, "alive" alone is not enough
+    fn killed_after_dispatch(&self, _cid: usize, wi: usize, s: &Snap) -> bool {
+        // dispatch index of the connection vs. kills is tracked through `killed` (set at Kill, cleared
+        // when the replacement's handle has been consumed); conservative: a killed worker's queue is gone
+        self.killed[wi] && !s.alive[wi]
+    }
+}
+
+fn run_schedule(run_id: usize, sch: &Value, dir: &str, trace: &mut Trace) -> Value {
+    let cfg = &sch["cfg"];
+    let w = geti(cfg, "W") as usize;
+    let limit = geti(cfg, "Limit") as usize;
+    let listeners: Vec<LKind> = cfg["listeners"]
+        .as_array()
+        .unwrap()
+        .iter()
+        .map(|k| if k.as_str() == Some("uds") { LKind::Uds } else { LKind::Tcp })
+        .collect();
+    let rundir = format!("{dir}/r{run_id}");
+    std::fs::create_dir_all(&rundir).unwrap();
+    let sim = Sim::new(SimCfg {
+        workers: w,
+        limit,
+        listeners: listeners.clone(),
+        shutdown_timeout_ms: cfg.get("shutdown_ms").and_then(|m| m.as_u64()).unwrap_or(2000),
+        dir: rundir.clone(),
+    })
+    .expect("sim");
+    let mut run = Run {
+        sim,
+        w,
+        dlog: vec![],
+        ever_faulted: false,
+        pending_faults: vec![],
+        injected: vec![0; listeners.len()],
+        killed: vec![false; w],
+        limit,
+        nlisteners: listeners.len(),
+    };
+    let mut prev = run.sim.snapshot();
+    let st0 = run.project(&prev);
+    trace.emit(&json!({"ev": "reset", "run": run_id, "W": w, "Limit": limit, "L": listeners.len(),
+        "uds": listeners.iter().enumerate().filter(|(_, k)| **k == LKind::Uds).map(|(i, _)| i + 1).collect::<Vec<_>>(),
+        "st": st0}));
+    let mut anchors_missed = 0usize;
+    let mut steps_done = 0usize;
+    let steps = sch["steps"].as_array().unwrap();
+    for (k, st) in steps.iter().enumerate() {
+        let d = gets(st, "do");
+        let mut q = false;
+        let mut pe = false; // paused for the whole step
+        let disp_before = prev.dispatched.len();
+        let mut resume_seen = prev.wq.iter().any(|n| n == "Resume");
+        match d {
+            "Iter" => {
+                let mut anchored = vec![];
+                if let Some(a) = st.get("anchored").and_then(|a| a.as_array()) {
+                    for x in a {
+                        let inner = &x["step"];
+                        if gets(inner, "do") == "Cmd" && gets(inner, "x") == "Resume" {
+                            resume_seen = true;
+                        }
+                        note_env(&mut run, inner);
+                        if let Some(act) = parse_act(inner) {
+                            anchored.push((gets(x, "at").to_string(), geti(x, "nth") as usize, act));
+                        }
+                    }
+                }
+                pe = prev.paused && !resume_seen;
+                anchors_missed += run.sim.iterate(anchored);
+            }
+            "Settle" => {
+                let mut stable = 0;
+                let mut last = signature(&prev);
+                for _ in 0..40 {
+                    if prev.wq.iter().any(|n| n == "Resume") {
+                        resume_seen = true;
+                    }
+                    run.sim.iterate(vec![]);
+                    let s = run.sim.snapshot();
+                    let sig = signature(&s);
+                    let empty = s.wq.is_empty();
+                    absorb(&mut run, &s);
+                    prev = s;
+                    if sig == last && empty {
+                        stable += 1;
+                        if stable >= 2 {
+                            break;
+                        }
+                    } else {
+                        stable = 0;
+                    }
+                    last = sig;
+                }
+                q = stable >= 2;
+                pe = false;
+            }
+            "PollWoken" => {
+                for i in run.sim.woken_workers() {
+                    run.sim.apply(&Act::WorkerPoll(i));
+                }
+            }
+            _ => {
+                note_env(&mut run, st);
+                match parse_act(st) {
+                    Some(act) => run.sim.apply(&act),
+                    None => panic!("driver: unknown step {st}"),
+                }
+            }
+        }
+        let s = run.sim.snapshot();
+        absorb(&mut run, &s);
+        let ndisp = s.dispatched.len() - disp_before.min(s.dispatched.len());
+        let mut rec = json!({"ev": "step", "run": run_id, "k": k, "do": d, "q": q,
+            "pe": pe && d == "Iter", "ndisp": ndisp, "st": run.project(&s)});
+        if d != "Iter" && d != "Settle" {
+            rec["arg"] = st.clone();
+        }
+        trace.emit(&rec);
+        steps_done += 1;
+        let dead = !s.panicked.is_empty();
+        prev = s;
+        if dead {
+            break;
+        }
+    }
+    let log: Vec<String> = run
+        .sim
+        .svc_log()
+        .iter()
+        .map(|e| match e {
+            SvcEvent::Create { worker, token, ok } => format!("create w{worker} t{token} {ok}"),
+            SvcEvent::Ready { worker, token, inst, ans } => format!("ready w{worker} t{token} #{inst} {ans}"),
+            SvcEvent::Call { worker, token, inst, peer, .. } => format!("call w{worker} t{token} #{inst} {peer}"),
+        })
+        .collect();
+    let _ = log;
+    drop(run);
+    let _ = std::fs::remove_dir_all(&rundir);
+    json!({"steps": steps_done, "anchors_missed": anchors_missed})
+}
+
+/// bookkeeping of environment facts the projection needs (which faults are pending, injected errors)
+fn note_env(run: &mut Run, st: &Value) {
+    match gets(st, "do") {
+        "Kill" => {
+            run.ever_faulted = true;
+            run.killed[geti(st, "i") as usize] = true;
+        }
+        "Replace" => {
+            let i = geti(st, "i") as usize;
+            run.killed[i] = false;
+            run.pending_faults.retain(|x| *x != i);
+        }
+        "Inject" => run.injected[geti(st, "l") as usize] += 1,
+        _ => {}
+    }
+}
+
+/// folds what happened during a step (yield-point log, fault reports) into the run's ghost state
+fn absorb(run: &mut Run, s: &Snap) {
+    // dispatch log with the "clean" flag the engine measured at the matching inc point
+    run.dlog = s
+        .dispatched
+        .iter()
+        .zip(s.dclean.iter())
+        .map(|((cid, wi), clean)| (cid + 1, *wi, *clean))
+        .collect();
+    // injected errors consumed: an "accepted" point with code 2 (error) per consumption
+    for (k, code) in s.points.iter() {
+        if k == "accepted" && *code == 2 {
+            if let Some(slot) = run.injected.iter_mut().find(|x| **x > 0) {
+                *slot -= 1;
+            }
+        }
+    }
+    for f in s.faults.iter() {
+        if !run.pending_faults.contains(f) && run.killed[*f] {
+            run.pending_faults.push(*f);
+        }
+    }
+}
 
 fn main() {
-    let dir = std::env::temp_dir().join(format!("vsrv-{}", std::process::id()));
-    std::fs::create_dir_all(&dir).unwrap();
-    let mut sim = Sim::new(SimCfg { workers: 1, limit: 1, listeners: vec![LKind::Tcp, LKind::Uds], shutdown_timeout_ms: 2000, dir: dir.display().to_string() }).unwrap();
-    sim.apply(&Act::Connect(0));
-    sim.apply(&Act::Connect(1));
-    println!("{:?}", sim.snapshot());
-    sim.iterate(vec![]);
-    println!("{:?}", sim.snapshot());
-    sim.apply(&Act::WorkerPoll(0));
-    println!("{:?}", sim.snapshot());
-    sim.apply(&Act::Finish(0));
-    println!("{:?}", sim.snapshot());
-    sim.iterate(vec![]);
-    sim.apply(&Act::WorkerPoll(0));
-    sim.iterate(vec![]);
-    println!("{:?}", sim.snapshot());
-    drop(sim);
-    let _ = std::fs::remove_dir_all(&dir);
+    vcore::quiet_panics();
+    let mode = std::env::args().nth(1).expect("mode");
+    match mode.as_str() {
+        "replay" => {
+            let schedules = read_ndjson(&arg("--schedules").expect("--schedules"));
+            let mut trace = Trace::create(&arg("--trace").expect("--trace"));
+            let dir = std::env::temp_dir().join(format!("vsrv-{}", std::process::id()));
+            std::fs::create_dir_all(&dir).unwrap();
+            let mut steps = 0u64;
+            let mut missed = 0u64;
+            for (i, sch) in schedules.iter().enumerate() {
+                let r = run_schedule(i, sch, &dir.display().to_string(), &mut trace);
+                steps += r["steps"].as_u64().unwrap();
+                missed += r["anchors_missed"].as_u64().unwrap();
+            }
+            trace.finish();
+            let _ = std::fs::remove_dir_all(&dir);
+            println!(
+                "{}",
+                json!({"runs": schedules.len(), "steps": steps, "anchors_missed": missed,
+                       "mismatches": 0, "first_mismatches": []})
+            );
+        }
+        other => panic!("unknown mode {other}"),
+    }
 }
